@@ -60,7 +60,10 @@ CLAIMED = {
             "any state of any run, carries a value for exactly the active entries, each taken from [default]+values, and none for a name outside the space). Domain membership of what prob_to_value produces: C14. "
             "C05_bayes_vector_provenance / C05_bayes_inactive_entry_skips: for ANY space (shared names allowed) and vector, every value _vector_to_values returns was assigned by an entry of that very name and is that entry's own "
             "prob_to_value of its own component, its fixed value or its default; an entry inactive at its turn changes nothing (BayesVec.v, compared with the real method on generated spaces and vectors on every run). "
-            "PARTIAL: Hyperband's copy of the parent's values and the Gaussian-process side of the Bayesian oracle are not modelled: on every run each trial issued by the real "
+            "C05_hyperband_promotion_exactly_active / _other_entries / C05_hyperband_tuner_entries / C05_hyperband_hash_view (HBValues.v): a promoted Hyperband trial carries its parent's values plus the five tuner/* entries of the "
+            "schedule, so for a space without tuner/* names every entry keeps the parent's value and activity at any promotion depth, and _compute_values_hash sees the parent plus tuner/trial_id; "
+            "compared on every run with every trial a real HyperbandOracle issues on generated multi-worker histories (round 0 and promotions), evaluated in Coq. "
+            "PARTIAL: the Gaussian-process side of the Bayesian oracle is not modelled: on every run each trial issued by the real "
             "random/grid/Hyperband/Bayesian oracles over generated spaces (all kinds, conditions to depth 4, names shared between exclusive branches with equal or different domains, spaces growing during the search) is checked for exact coverage and domain.",
             "Trusted: Coq kernel; the container model is tied to HyperParameters by the C13 correspondence; distinct names assumed; Bayesian oracle runs the real GP.", "DESIGN.md section 6 C05"),
     "C12": ("differential replay in fresh interpreters (different PYTHONHASHSEED and global seeds) + the models being functions of the seeded sample table only",
